@@ -494,7 +494,13 @@ def c18(tier, seed, work):
     depth = 2 if tier == "quick" else 3
     fams = [F.console_metrics_family(work, "c18-sess", True, "CmdsAR", 2, depth, "KindsRetry", a, i),
             F.console_metrics_family(work, "c18-nosess", False, "CmdsAB", 2, depth, "KindsRetryNS", 1, 1, codes="CodesAll")]
-    hs = [F.handshake_family(work, "c18-lifecycle", "lifecycle", tier, seed, metrics=True)]
+    mcs.append(F.model_check("Lifecycle", "MC_Lifecycle.cfg", work, workers=4))
+    for g, inv in (("DecAlways", "C18_Gauge"), ("CountFailure", "C18_Opens"), ("AttemptFirst", "C18_Opens")):
+        if not F.expect_violation("Lifecycle", "Mutant_Lifecycle_%s.cfg" % g, work, inv):
+            raise vlib.Inconclusive("model mutant Mutant_Lifecycle_%s.cfg did not violate %s" % (g, inv))
+    hs = [F.handshake_family(work, "c18-lifecycle", "lifecycle", tier, seed, metrics=True),
+          # every behaviour of Lifecycle.tla of 4 (thorough: 6) operations
+          F.handshake_family(work, "c18-lifecyclex", "lifecyclex", tier, seed, metrics=True)]
     fams += hs
     # every library command (incl. the five DCMI capability commands that share one operation) and real-time retries
     fams.append(F.walk_family(work, "c18-api", "MCGenApi", "Gen_Cipher.cfg.tpl", "api", tier, seed, metrics=True))
